@@ -132,7 +132,11 @@ pub fn run(ctx: &Ctx, rep: &mut Report) {
         match check.as_str() {
             "sequence" => replay_case::<SeqCase, _>(rep, check, case_v, seq_oracle),
             "threads" => replay_case::<ThreadCase, _>(rep, check, case_v, thread_oracle),
-            _ => std::process::exit(2),
+            other => {
+                if !super::c09_e2e::replay(rep, other, case_v) {
+                    std::process::exit(2)
+                }
+            }
         }
         return;
     }
@@ -153,4 +157,7 @@ pub fn run(ctx: &Ctx, rep: &mut Report) {
         }
     }
     finish_direct(rep, "threads", st, fails, false);
+    // the wire clause: through a Session with the generator configured (real clock)
+    scylla::verif::clock::set(None);
+    super::c09_e2e::run_timestamps(ctx, rep);
 }
